@@ -23,4 +23,4 @@ Extraction "extracted/model.ml"
   spec_overlapping spec_find spec_nosuffix spec_lml spec_lmf effective distinct_nonempty_prefixes
   spec_build_error spec_build_error_conv
   cli_main cli_patterns buf_lines covered
-  bw_cert_ok bw_cert_count bw_ranges_b cw_ranges_b bw_safe_b bw_stats_ok bw_lm_cert_ok cw_cert_ok cw_safe_b.
+  bw_cert_ok bw_cert_count bw_ranges_b cw_ranges_b bw_safe_b bw_stats_ok bw_lm_cert_ok cw_cert_ok cw_safe_b cw_lm_cert_ok.
